@@ -115,4 +115,6 @@ Definition hyp_case (fuel : nat) (c : case) : bool :=
   | (cells, refs, maxd, ops, _) =>
       forallb (fun p => cell_hyp refs (snd p)) cells && forallb (op_hyp cells refs) ops
       && negb (s_reent (snd (run fuel (init cells refs maxd) ops)))
+      (* no request of the history had the depth-limit error replaced by a failing clean-up ([SFin]) *)
+      && Nat.eqb (s_masks (snd (run fuel (init cells refs maxd) ops))) 0
   end.
